@@ -48,6 +48,7 @@ type FuncContract struct {
 	Opaque    bool
 	Trusted   bool
 	NoReturn  bool
+	DynOpaque bool // function values received from the caller are called as opaque (assumption: no effect on the verified heap)
 	NoFrame   bool // the modifies clause is used at call sites but not checked against the body
 	Serves    []string
 	Requires  []*Clause
@@ -400,7 +401,7 @@ func (cs *Contracts) loadContractFile(path, pkgPath string, imports map[string]s
 		case cur != nil && head == "serves":
 			cur.Serves = append(cur.Serves, fields[1:]...)
 			lastClause = nil
-		case cur != nil && (head == "pure" || head == "opaque" || head == "trusted" || head == "noreturn" || head == "noframe"):
+		case cur != nil && (head == "pure" || head == "opaque" || head == "trusted" || head == "noreturn" || head == "noframe" || head == "dyncalls-opaque"):
 			switch head {
 			case "pure":
 				cur.Pure = true
@@ -412,6 +413,8 @@ func (cs *Contracts) loadContractFile(path, pkgPath string, imports map[string]s
 				cur.NoReturn = true
 			case "noframe":
 				cur.NoFrame = true
+			case "dyncalls-opaque":
+				cur.DynOpaque = true
 			}
 			lastClause = nil
 		case cur != nil && head == "safe":
@@ -472,7 +475,7 @@ func (cs *Contracts) loadContractFile(path, pkgPath string, imports map[string]s
 			ls.Invariants = append(ls.Invariants, mk("invariant", m[2], m[3]))
 		case cur != nil && head == "at":
 			// at call N of NAME before|after assert|assume[label] expr      /  at ... set TARGET = expr
-			re := regexp.MustCompile(`^at\s+(call|send|recv|mapupdate|select|return|entry)\s+(\d+|all)(?:\s+of\s+(\S+))?\s+(before|after)\s+(assert|assume|set)(\[[^\]]*\])?\s*(.*)$`)
+			re := regexp.MustCompile(`^at\s+(call|send|recv|mapupdate|select|return|entry)\s+(\d+|all)(?:\s+of\s+(\S+))?\s+(before|after)\s+(assert|assume|set|havoc)(\[[^\]]*\])?\s*(.*)$`)
 			m := re.FindStringSubmatch(l)
 			if m == nil {
 				return fmt.Errorf("%s:%d: bad 'at' clause", path, i+1)
@@ -614,7 +617,9 @@ func (cs *Contracts) parseAll() error {
 			}
 		}
 		for _, g := range fc.Ghosts {
-			try(g.Clause)
+			if g.Kind != "havoc" {
+				try(g.Clause)
+			}
 		}
 	}
 	for _, p := range cs.Preds {
